@@ -1296,6 +1296,23 @@ func genPom(r *rand.Rand) pomCase {
 	for i := 1 + r.Intn(4); i > 0; i-- {
 		add("", mainProps, false)
 	}
+	// the same groupId:artifactId once more under another dependency key (test-jar / classifier variant) and another
+	// version, in <dependencies> or dependencyManagement: an update addressed to one of them must rewrite exactly that one
+	if r.Intn(3) == 0 && len(c.deps) > 0 {
+		d0 := c.deps[r.Intn(len(c.deps))]
+		v := pdep{origin: []string{"", "management"}[r.Intn(2)], g: d0.g, a: d0.a, typ: d0.typ, cls: d0.cls, ver: version(mainProps)}
+		if r.Intn(2) == 0 {
+			v.typ = "test-jar"
+		} else {
+			v.cls = "tests"
+		}
+		k := v.g + ":" + v.a + ":" + normTyp(v.typ) + ":" + v.cls
+		if !used["*|"+k] {
+			used[v.origin+"|"+k] = true
+			used["*|"+k] = true
+			c.deps = append(c.deps, v)
+		}
+	}
 	for i := r.Intn(3); i > 0; i-- {
 		add("management", mainProps, dupOK())
 	}
